@@ -142,6 +142,13 @@ def catalogue(quick=True):
                      [out_y(lock_prev=True, default="1/8"), out_ts(lock_range=True, default="3", lock_prev=False), out_z(lock_prev=True, lock_range=True)],
                      [block("rb", [rule(P("a", "lo"), [C("y", "s"), C("u", "c3")]), rule(P("b", "hi"), [C("u", "lin"), C("z", "p")]),
                                    rule(AND(P("a", "hi"), P("b", "lo")), [C("y", "l"), C("z", "n")])])]))
+    # without an aggregation operator (or with UnboundedSum) the accumulated degree of a term concluded several times exceeds 1;
+    # later rules read it through hedges, which are applied to it as it is
+    for ag in ["none", "UnboundedSum"]:
+        cs.append(engine(f"unbounded-output-in-antecedent-{ag}", [in_a(), in_b()], [out_ts(aggregation=ag)],
+                         [block("rb", [rule(P("a", "lo"), [C("u", "c1")]), rule(P("b", "hi"), [C("u", "c1")]), rule(P("b", "mid"), [C("u", "c1")], weight="1/2"),
+                                       rule(P("u", "c1", "very"), [C("u", "c2")]), rule(AND(P("u", "c1", "not"), P("a", "hi")), [C("u", "c3")]),
+                                       rule(OR(P("u", "c1", "extremely", "not"), P("u", "c2")), [C("u", "c3")], weight="1/4")], implication="none")]))
     # Function terms: the formula reads input values, the activation degree (x) and - in the second output - the value the
     # first output has just been given
     f1 = out("f", -4, 4, [term("c1", "Constant", "-1/2"),
@@ -154,7 +161,7 @@ def catalogue(quick=True):
                                    rule(AND(P("a", "hi"), P("b", "lo")), [C("f", "deg")]), rule(P("a", "md"), [C("g", "half")], weight="1/4")], implication="none")]))
     cs.append(base("larsen", implication="AlgebraicProduct"))
     for e in cs:
-        if e["name"].startswith(("ops", "distinguishable", "larsen", "chained", "ts-", "tsukamoto", "inverse", "hybrid", "locks")):
+        if e["name"].startswith(("ops", "distinguishable", "larsen", "chained", "ts-", "tsukamoto", "inverse", "hybrid", "locks", "unbounded")):
             e["coarse"] = True
     return cs
 
